@@ -217,6 +217,9 @@ define_ops! {
     x_ni_next_multiple_of = |a: U, b: U| pair(|| num_integer::Integer::next_multiple_of(&a, &b), || Uint::checked_next_multiple_of(a, b));
     ni_prev_multiple_of = |a: U, b: U| pair(|| num_integer::Integer::prev_multiple_of(&a, &b), || Uint::wrapping_sub(a, Uint::wrapping_rem(a, b)));
     // ---- subtle
+    // the same comparisons with the two operands at DIFFERENT addresses modulo 16 (one behind a u64 in an aligned record,
+    // one at the start of an aligned record, and neighbours in an array): results must not depend on where a value lives
+    ct_cmp_layout = |a: U, b: U| pair(|| { #[repr(C, align(16))] struct Off<T>(u64, T); #[repr(C, align(16))] struct Al<T>(T); let x = std::hint::black_box(Off(7, a)); let y = std::hint::black_box(Al(b)); let arr = std::hint::black_box([a, b, a]); let f = |p: &Uint<B, L>, q: &Uint<B, L>| (ch(p.ct_eq(q)), ch(p.ct_gt(q)), ch(p.ct_lt(q)), p == q, p.cmp(q) as i8, hh(p) == hh(q)); (f(&x.1, &y.0), f(&y.0, &x.1), f(&arr[0], &arr[1]), f(&arr[1], &arr[2])) }, || { let g = |p: Uint<B, L>, q: Uint<B, L>| (p == q, p > q, p < q, p == q, p.cmp(&q) as i8, p == q); (g(a, b), g(b, a), g(a, b), g(b, a)) });
     ct_cmp = |a: U, b: U| pair(|| (ch(a.ct_eq(&b)), ch(a.ct_ne(&b)), ch(a.ct_gt(&b)), ch(a.ct_lt(&b))), || (a == b, a != b, a > b, a < b));
     ct_select = |a: U, b: U, c: BO| pair(|| { let x = Uint::conditional_select(&a, &b, Choice::from(c as u8)); let mut y = a; y.conditional_assign(&b, Choice::from(c as u8)); let (mut p, mut q) = (a, b); Uint::conditional_swap(&mut p, &mut q, Choice::from(c as u8)); (x, y, p, q) }, || if c { (b, b, b, a) } else { (a, a, a, b) });
     ct_negate = |a: U, c: BO| pair(|| { let mut x = a; x.conditional_negate(Choice::from(c as u8)); x }, || if c { Uint::wrapping_neg(a) } else { a });
@@ -265,7 +268,7 @@ const BIN: &[Op] = &[
     Op::nt_div_euclid, Op::nt_rem_euclid, Op::nt_div_rem_euclid, Op::nt_checked_div_rem_euclid, Op::nt_saturating, Op::nt_saturating_add, Op::nt_saturating_sub, Op::nt_saturating_mul, Op::nt_wrapping_add,
     Op::nt_wrapping_sub, Op::nt_wrapping_mul, Op::nt_overflowing_add, Op::nt_overflowing_sub, Op::nt_overflowing_mul, Op::ni_div_floor, Op::ni_mod_floor,
     Op::x_ni_gcd_lcm, Op::ni_divides, Op::x_ni_next_multiple_of, Op::ni_prev_multiple_of,
-    Op::bits_eq_hash, Op::ni_gcd, Op::x_ni_lcm, Op::ni_is_multiple_of, Op::ni_div_rem, Op::ni_div_ceil, Op::ni_div_mod_floor, Op::ni_extended_gcd, Op::ct_cmp,
+    Op::bits_eq_hash, Op::ni_gcd, Op::x_ni_lcm, Op::ni_is_multiple_of, Op::ni_div_rem, Op::ni_div_ceil, Op::ni_div_mod_floor, Op::ni_extended_gcd, Op::ct_cmp, Op::ct_cmp_layout,
 ];
 const BIN_SHAPED: &[Op] = &[Op::op_add, Op::op_sub, Op::op_mul, Op::op_div, Op::op_rem, Op::op_and, Op::op_or, Op::op_xor, Op::bits_and, Op::bits_or, Op::bits_xor];
 const UN: &[Op] = &[
